@@ -122,7 +122,10 @@ def run_case(case, ctx):
         prog = pitgen.reuse_program(rng, case['family'], case['same'])
     else:
         prog = pitgen.gen_valid_program(rng, family=case['family'],
-                                        opts={'p_fixed_stem': 0.3, 'allow_fixed': True})
+                                        opts={'p_fixed_stem': 0.3, 'allow_fixed': True,
+                                              'hazards': ('add-of-cat', 'dw-after-cat',
+                                                          'add-of-fixed', 'dw-after-fixed',
+                                                          'excluded-consumer')})
     specs, names = spec_objects(case, prog['family'])
     # the pattern constraint is evaluated on the seed layer: groups == in == out (a 1->1 conv
     # with groups=1 satisfies it too)
